@@ -18,7 +18,17 @@ Determinism under machine load (the check must never alarm because of scheduling
   * the INITIAL STATE of a case (attribute set + unread input in the queue when the call is
     made) is entered with a staging protocol (impl_c12.enter_initial_state): the type-ahead
     is written while nothing is echoed, and the call starts only after the driver has
-    counted every byte in the tty's input queue (FIONREAD) — no sleeps.
+    counted every byte in the tty's input queue (FIONREAD) — no sleeps;
+  * REPLY PLACEMENT (case key "place"): the moment a reply arrives RELATIVE TO THE LIBRARY'S OWN
+    STEPS.  Without it a burst is written "on sight" (when this process has read the request
+    off the master), which in practice is always after the library has begun to read.  With it
+    the timely bursts are written at an exact point of the exchange: "window" = the request has
+    been fully transmitted and the library has made no further tty call (a quick terminal; a
+    process descheduled right after writing), "read" = after the library has switched the tty
+    to its reading mode, "split" = all bursts but the last at "window", the last at "read".  The
+    driver's pass-through wrappers of termios.tcdrain / tcsetattr report the two points ("D",
+    "S") and wait for "go n"; the library goes on only when the n bytes written at that point
+    have been counted in the tty's input queue (impl_c12.Gates) — no sleeps, no clock.
 """
 from __future__ import annotations
 
@@ -155,7 +165,7 @@ class Session:
             self.read_master()
         self.garbage.clear()
         cmd = {k: case[k] for k in ("op", "timeout", "enabled", "swap", "env", "more", "request", "cache", "calls",
-                                    "init")
+                                    "init", "place")
                if k in case}
         self.send(cmd)
         if case.get("init") and case["init"].get("typeahead"):
@@ -170,8 +180,72 @@ class Session:
         reqbuf = bytearray()
         t_start = time.monotonic()
         raw_request = bytes(case["request"]) if case["op"] == "raw" else None
+        place = case.get("place")
+        held = {"D": [], "S": [], "planned": False}  # placed bursts of the current round, by the point due
+
+        def look_for_request():
+            """a complete request on the master -> plan its round; bursts without a placement are
+            written at once ("on sight"), placed ones are held for their point"""
+            if not (reqbuf.endswith(raw_request) if raw_request is not None else reqbuf.endswith(Q_DA1)):
+                return False
+            t_req = time.monotonic()
+            if raw_request is not None:
+                request = raw_request
+            else:
+                start = reqbuf.find(bytes([ESC]))
+                request = bytes(reqbuf[start:]) if start >= 0 else bytes(reqbuf)
+            reqbuf.clear()
+            k = len(rounds)
+            bursts = plan_round(case, k, request)
+            played = []
+            if held["D"] or held["S"]:
+                held["lost"] = True  # the previous round's point was never reached: not played as recorded
+            held["D"], held["S"] = [], []
+            timely = [i for i, x in enumerate(bursts) if x[0] != 2]
+            for i, (cls, delay, data) in enumerate(bursts):
+                if cls == 2:
+                    late.append(data)
+                    played.append([2, list(data)])
+                    continue
+                if place:
+                    at_read = place == "read" or (place == "split" and len(timely) > 1 and i == timely[-1])
+                    held["S" if at_read else "D"].append(data)
+                    played.append([4 if at_read else 3, list(data)])
+                    continue
+                if delay:
+                    time.sleep(delay)
+                os.write(self.master, data)
+                played.append([cls, list(data)])
+            rounds.append({"request": list(request), "bursts": played, "t_req": t_req, "t_done": time.monotonic()})
+            held["planned"] = True
+            return True
+
+        def on_gate(code):
+            """the library has reached point `code`: write what is due there -> number of bytes"""
+            if code == "D":
+                # the request is on its way to the master (the kernel delivers it in a worker)
+                end = time.monotonic() + 5.0
+                seen = held["planned"] or look_for_request()
+                while not seen and time.monotonic() < end:
+                    if select.select([self.master], [], [], 0.05)[0]:
+                        reqbuf.extend(self.read_master())
+                        seen = look_for_request()
+                held["planned"] = False
+            n = 0
+            for data in held[code]:
+                os.write(self.master, data)
+                n += len(data)
+            held[code] = []
+            if n and rounds:
+                rounds[-1]["t_done"] = time.monotonic()
+            return n
+
         while result is None:
-            result = self.poll_result()
+            msg = self.poll_result()
+            if msg is not None and "gate" in msg:
+                self.send({"go": on_gate(msg["gate"])})
+                continue
+            result = msg
             if result is not None:
                 break
             if time.monotonic() - t_start > call_cap(T):
@@ -182,30 +256,10 @@ class Session:
                 if not chunk:
                     raise RuntimeError("driver died: " + self.stderr_tail())
                 self.resbuf += chunk
+                continue  # a gate event is served before the master is looked at
             if self.master in rd:
                 reqbuf += self.read_master()
-                if (reqbuf.endswith(raw_request) if raw_request is not None else reqbuf.endswith(Q_DA1)):
-                    t_req = time.monotonic()
-                    if raw_request is not None:
-                        request = raw_request
-                    else:
-                        start = reqbuf.find(bytes([ESC]))
-                        request = bytes(reqbuf[start:]) if start >= 0 else bytes(reqbuf)
-                    reqbuf.clear()
-                    k = len(rounds)
-                    bursts = plan_round(case, k, request)
-                    played = []
-                    for cls, delay, data in bursts:
-                        if cls == 2:
-                            late.append(data)
-                            played.append([2, list(data)])
-                            continue
-                        if delay:
-                            time.sleep(delay)
-                        os.write(self.master, data)
-                        played.append([cls, list(data)])
-                    t_done = time.monotonic()
-                    rounds.append({"request": list(request), "bursts": played, "t_req": t_req, "t_done": t_done})
+                look_for_request()
         # what the call left unread: LATE bursts are written only now (the call has returned
         # and the driver has put the tty into raw mode), then the sentinel
         self.send({"op": "leftover"})
@@ -219,6 +273,10 @@ class Session:
         writes = result.get("writes", [])
         timing_ok = (len(writes) == len(rounds) and bool(lo.get("sentinel_seen"))
                      and bool(result.get("staged_ok", True)))
+        if held["D"] or held["S"] or held.get("lost"):
+            # a placed burst was never written (its point was not reported in time): the record does
+            # not say what happened -- inconclusive, run again
+            timing_ok = False
         for r, tw in zip(rounds, writes):
             # every timely burst really was timely, with a wide margin
             if r["t_done"] - tw > T / 2 or r["t_done"] < tw:
